@@ -92,6 +92,8 @@ type Engine struct {
 	redirects map[string]*ssa.Function
 	selftest  int // >0: translator self-test, models per path
 	skipInit  map[string]bool
+	initMu          sync.Mutex
+	initStoredCache map[*ssa.Package][]*ssa.Global
 	errType   types.Type
 	logw      io.Writer
 	goInline  bool
